@@ -1391,3 +1391,89 @@ func scenWindowCrash(e *engineA) error {
 	e.sleepHB(5, 9)
 	return e.finish()
 }
+
+func init() { scenarios["promote-idle"] = scenPromoteIdle }
+
+// scenPromoteIdle (C17, leader stability): membership changes (a node is
+// added and promoted, or a voter is demoted and promoted again) followed by
+// periods without any load and without any fault. A voter that the leader
+// keeps serving has no reason to campaign, and the next update must be
+// accepted by the same leader.
+func scenPromoteIdle(e *engineA) error {
+	e.prof = profiles["member"]
+	if err := e.boot(3); err != nil {
+		return err
+	}
+	e.cl.startInfoSampler(e.hb() / 2)
+	l := e.cl.leader()
+	if l == nil {
+		return fmt.Errorf("no leader")
+	}
+	for i := 0; i < 3; i++ {
+		e.cl.fsmOp(1, l, "update")
+	}
+	quiet := func() {
+		e.rc.emit(&ev.Rec{K: "quiet-begin"})
+		e.sleepHB(5, 8)
+		e.rc.emit(&ev.Rec{K: "quiet-end"})
+		if cur := e.cl.leader(); cur != nil {
+			e.cl.fsmOp(1, cur, "update")
+		}
+	}
+	for round := 0; round < 2+e.rng.Intn(2); round++ {
+		cur := e.cl.leader()
+		if cur == nil {
+			break
+		}
+		switch e.rng.Intn(3) {
+		case 0: // a new node joins and is promoted
+			conf := raft.Config{}
+			if info, ok := cur.info(false); ok {
+				conf = info.Configs.Latest
+			}
+			id := e.newNodeID(&conf)
+			if id == 0 {
+				continue
+			}
+			e.rc.emit(&ev.Rec{K: "fault", Op: "add-and-promote", Nid: id})
+			e.cl.changeConfig(cur, fmt.Sprintf("add(%d,promote=true)", id), func(c *raft.Config) error {
+				return c.AddNonvoter(id, e.cl.addrOf(id), true)
+			})
+			e.waitFor(60, func() bool {
+				info, ok := cur.info(false)
+				return ok && info.Configs.IsStable() && info.Configs.IsCommitted() && info.Configs.Latest.Nodes[id].Voter
+			})
+		case 1: // a voter is demoted, then promoted again
+			var x *Node
+			for _, f := range e.others(cur) {
+				if info, ok := cur.info(false); ok && info.Configs.Latest.Nodes[f.nid].Voter {
+					x = f
+				}
+			}
+			if x == nil {
+				continue
+			}
+			e.rc.emit(&ev.Rec{K: "fault", Op: "demote-then-promote", Nid: x.nid})
+			e.cl.changeConfig(cur, fmt.Sprintf("demote(%d)", x.nid), func(c *raft.Config) error { return c.SetAction(x.nid, raft.Demote) })
+			e.waitFor(40, func() bool {
+				info, ok := cur.info(false)
+				return ok && info.Configs.IsStable() && info.Configs.IsCommitted()
+			})
+			quiet()
+			if cur = e.cl.leader(); cur == nil {
+				continue
+			}
+			e.cl.changeConfig(cur, fmt.Sprintf("promote(%d)", x.nid), func(c *raft.Config) error { return c.SetAction(x.nid, raft.Promote) })
+			e.waitFor(60, func() bool {
+				info, ok := cur.info(false)
+				return ok && info.Configs.IsStable() && info.Configs.IsCommitted()
+			})
+		case 2: // a node's data changes (a configuration entry that changes no role)
+			x := e.others(cur)[0]
+			e.rc.emit(&ev.Rec{K: "fault", Op: "setdata", Nid: x.nid})
+			e.cl.changeConfig(cur, fmt.Sprintf("setdata(%d)", x.nid), func(c *raft.Config) error { return c.SetData(x.nid, "x") })
+		}
+		quiet()
+	}
+	return e.finish()
+}
